@@ -706,6 +706,31 @@ fn run_batch(tier: Tier, emit_log: Option<&Path>, only: Option<&str>) -> i32 {
         say!("KNOWN-FINDING: property={PROPERTY} {k} (seen {n}x)");
     }
 
+    // process-level cross-check (thorough tier, or when VERIF_PROC_CASES is set)
+    let proc_cases: usize = std::env::var("VERIF_PROC_CASES").ok().and_then(|s| s.parse().ok()).unwrap_or(if tier == Tier::Thorough { 150 } else { 0 });
+    let mut proc_stats = (0u64, 0u64);
+    if proc_cases > 0 && !dry {
+        let (pr, pc, pv) = run_proc_mode(&cases, proc_cases, 3, workers);
+        proc_stats = (pr, pc);
+        for (n, (ci, detail)) in pv.iter().enumerate() {
+            violations += 1;
+            if n < 2 {
+                let c = &cases[*ci];
+                let body = json!({
+                    "engine": "hash-sim", "mode": "process", "property": PROPERTY, "origin": c.origin,
+                    "grammar": c.text, "opts": c.opts, "detail": detail,
+                    "signature": "process-level-split",
+                    "key_a": [K0.0.to_string(), K0.1.to_string()], "key_b": [c.keys[0].0.to_string(), c.keys[0].1.to_string()],
+                    "note": "found by the LD_PRELOAD cross-check with the real parol binary and real rustfmt; --replay re-runs the in-process comparison on the same grammar and options",
+                });
+                let path = simcore::write_replay(PROPERTY, seed, 100 + n as u64, &body).unwrap_or_else(|e| harness_error(&format!("cannot write replay: {e}")));
+                say!("violation: {} opts={} {}", c.origin, c.opts.short(), detail);
+                say!("VIOLATION property={PROPERTY} replay={}", path.display());
+            }
+        }
+        say!("hash-sim: process-level cross-check: {} parol processes, {} accepted grammars compared under 3 hash seeds each, {} differing", pr, pc, pv.len());
+    }
+
     let wall = t0.elapsed().as_secs_f64();
     let runs = RUNS.load(Ordering::Relaxed);
     let mut ev = Evidence::new(PROPERTY, tier, seed);
@@ -723,6 +748,7 @@ fn run_batch(tier: Tier, emit_log: Option<&Path>, only: Option<&str>) -> i32 {
     ev.set("accepted_grammars_with_designed_tie", json!(tie_grammars.len()));
     ev.set("faults_fired", json!({"hash_key_perturbation": evaluations, "seam_keys_served": seam::KEYS_SERVED.load(Ordering::Relaxed), "rustfmt_spawns_answered_by_simulator": seam::SPAWNS_STUBBED.load(Ordering::Relaxed)}));
     ev.set("event_log_hash", json!(log.hex()));
+    ev.set("process_level_cross_check", json!({"parol_processes": proc_stats.0, "accepted_grammars_compared": proc_stats.1, "hash_seeds_per_grammar": 3, "real_rustfmt": true}));
     ev.set("workers", json!(workers));
     ev.set("split_cases", json!(split_cases.len()));
     ev.set("known_findings_seen", json!(known_seen));
@@ -748,6 +774,96 @@ fn run_batch(tier: Tier, emit_log: Option<&Path>, only: Option<&str>) -> i32 {
         say!("OK property={PROPERTY} held on everything explored");
         simcore::EXIT_OK
     }
+}
+
+/// Process-level cross-check (the property's literal wording): the real `parol` binary built
+/// from /repo, one process per run, real `rustfmt`, `RandomState` keys injected through the
+/// LD_PRELOAD shim.  Returns (process runs, grammars compared, violations as (case index, text, detail)).
+fn run_proc_mode(cases: &[Case], max_cases: usize, n_seeds: u64, workers: usize) -> (u64, u64, Vec<(usize, String)>) {
+    let Some(bin) = std::env::var_os("VERIF_PAROL_BIN").map(PathBuf::from).filter(|p| p.exists()) else {
+        say!("INFO: process-level cross-check skipped (VERIF_PAROL_BIN not set)");
+        return (0, 0, vec![]);
+    };
+    let shim = simcore::verif_root().join("hash-sim").join("libverif_getrandom.so");
+    if !shim.exists() {
+        say!("INFO: process-level cross-check skipped ({} missing)", shim.display());
+        return (0, 0, vec![]);
+    }
+    // the real rustfmt: PATH without our stub directory
+    let stub_dir = simcore::verif_root().join("hash-sim").join("stub-bin");
+    let real_path = std::env::join_paths(
+        std::env::split_paths(&std::env::var_os("PATH").unwrap_or_default()).filter(|p| *p != stub_dir),
+    )
+    .unwrap();
+    // every second case, Rust back end only, small grammars first
+    let picked: Vec<usize> = (0..cases.len())
+        .filter(|i| !cases[*i].opts.csharp && cases[*i].text.len() < 20_000)
+        .step_by(2)
+        .take(max_cases)
+        .collect();
+    let results: Vec<(u64, bool, Option<String>)> = simcore::par_map(picked.len(), workers, 256 << 10, |j| {
+        let c = &cases[picked[j]];
+        let base = scratch_root().join(format!("proc-{j}"));
+        let mut runs = 0u64;
+        let mut reference: Option<(bool, BTreeMap<String, Vec<u8>>)> = None;
+        let mut finding = None;
+        for s in 0..n_seeds {
+            let dir = base.join(format!("s{s}"));
+            let _ = std::fs::create_dir_all(&dir);
+            let _ = std::fs::write(dir.join("g.par"), &c.text);
+            let mut cmd = std::process::Command::new(&bin);
+            cmd.current_dir(&dir)
+                .args(["-f", "g.par", "-e", "g-exp.par", "-p", "parser.rs", "-a", "grammar_trait.rs", "-q"])
+                .args(c.opts.cli_args())
+                .env("LD_PRELOAD", &shim)
+                .env("VERIF_HASH_SEED", format!("{},{}", simcore::mix(&[c.id as u64, s, 1]), simcore::mix(&[c.id as u64, s, 2])))
+                .env("PATH", &real_path)
+                .env_remove("RUST_LOG")
+                .stdout(std::process::Stdio::null())
+                .stderr(std::process::Stdio::null());
+            let ok = matches!(cmd.status(), Ok(st) if st.success());
+            runs += 1;
+            let mut files = BTreeMap::new();
+            if let Ok(rd) = std::fs::read_dir(&dir) {
+                for e in rd.flatten() {
+                    let n = e.file_name().to_string_lossy().to_string();
+                    if n != "g.par" {
+                        files.insert(n, std::fs::read(e.path()).unwrap_or_default());
+                    }
+                }
+            }
+            match &reference {
+                None => reference = Some((ok, files)),
+                Some((rok, rfiles)) => {
+                    if *rok != ok || *rfiles != files {
+                        let which = rfiles
+                            .iter()
+                            .find(|(n, b)| files.get(*n) != Some(*b))
+                            .map(|(n, _)| n.clone())
+                            .unwrap_or_else(|| "<file set / exit status>".into());
+                        finding = Some(format!("process runs under hash seeds 0 and {s} differ in {which}"));
+                        break;
+                    }
+                }
+            }
+        }
+        let accepted = reference.as_ref().map(|r| r.0 && r.1.len() >= 3).unwrap_or(false);
+        let _ = std::fs::remove_dir_all(&base);
+        (runs, accepted, finding)
+    });
+    let mut runs = 0;
+    let mut compared = 0;
+    let mut v = vec![];
+    for (j, (r, acc, f)) in results.into_iter().enumerate() {
+        runs += r;
+        if acc {
+            compared += 1;
+        }
+        if let Some(f) = f {
+            v.push((picked[j], f));
+        }
+    }
+    (runs, compared, v)
 }
 
 /// Determinism proof: the same reduced batch in two fresh processes at different worker
